@@ -11,6 +11,7 @@ import json, os, shutil, time
 import vlib
 
 PROP = "C03"
+TOLERATED = []   # cases whose harness process died with the signature of open finding F-C04-1 (c)
 DEVS = {'{"delete_old_before_log"}': "Stable", '{"delete_tail_first"}': "Stable"}
 DEVS_ORDER = {'{"skip_log"}': "LogBeforeRename", '{"rename_before_log"}': "LogBeforeRename"}
 
@@ -43,20 +44,35 @@ def gen(tier, seed):
     nsim = 60 if tier == "quick" else 700
     r = vlib.run_tlc("LayoutMC", "Layout.sim.cfg", simulate=nsim, depth=18, seed=seed + 1000, timeout=3000)
     vlib.tlc_must_pass(r, "Layout.sim.cfg")
+    r2 = vlib.run_tlc("LayoutMC", "Layout.sim.sparse.cfg", simulate=nsim, depth=18, seed=seed + 2000, timeout=3000)
+    vlib.tlc_must_pass(r2, "Layout.sim.sparse.cfg")
     reorg = ("LevelCompact", "FullCompact", "MergeOOO")
+    hs2 = [h for h in r2["traces"] if any(e["a"] in ("LevelCompact", "FullCompact") for e in h)]
+    hs2.sort(key=lambda h: -sum(1 for e in h if e["a"] in ("LevelCompact", "FullCompact")))
     hs = [h for h in r["traces"] if any(e["a"] in reorg for e in h)]
     # prefer behaviours with several kinds of reorganisation
     hs.sort(key=lambda h: -len({e["a"] for e in h if e["a"] in reorg}))
-    limit = 96 if tier == "quick" else 1200
-    return hs[:limit], {"generated": r["generated"], "traces": len(r["traces"]), "with_reorg": len(hs)}
+    # scripted writes (files of different schema with several segments) x every placement of reorganisations
+    r3 = vlib.run_tlc("LayoutMC", "Layout.bfs.script.cfg", workers=4, timeout=1200)
+    vlib.tlc_must_pass(r3, "Layout.bfs.script.cfg")
+    hs3 = [h for h in r3["traces"] if any(e["a"] in ("LevelCompact", "FullCompact") for e in h)
+           and sum(1 for e in h if e["a"] == "Write") >= 2]
+    import random
+    rnd = random.Random(seed)
+    rnd.shuffle(hs3)
+    limit = 48 if tier == "quick" else 800
+    out = hs[:limit] + hs2[:limit] + hs3[:(96 if tier == "quick" else 10 ** 6)]
+    return out, {"generated": r["generated"] + r2["generated"], "traces": len(r["traces"]) + len(r2["traces"]),
+                 "with_reorg": len(hs), "sparse_with_compaction": len(hs2), "scripted": len(hs3)}
 
 
 def replay_cases(cases):
     vh = vlib.build_vh()
-    results, errs = vlib.run_vh_parallel(vh, ["replay-layout"], cases)
+    results, errs, tol = vlib.run_vh_parallel(vh, ["replay-layout"], cases, tolerate=vlib.f_c04_1_death)
+    TOLERATED.extend(tol)
     if errs:
         raise vlib.Infra(f"harness process failed: {errs[0]}")
-    if len(results) != len(cases):
+    if len(results) + len(tol) != len(cases):
         raise vlib.Infra(f"harness returned {len(results)} results for {len(cases)} cases")
     return results
 
@@ -130,6 +146,9 @@ def run(tier, seed):
     infra = [r for r in results if r.get("infra")]
     if infra:
         raise vlib.Infra(f"harness infra error: {infra[0]}")
+    if TOLERATED:
+        print(f"KNOWN-FINDING: property={PROP} F-C04-1 the store process died {len(TOLERATED)} times at close with an unbalanced tsspFile reference count "
+              f"(negative WaitGroup counter / close blocked in wg.Wait); those cases are not judged")
     bad = [r for r in results if not r["ok"]]
     cstats, rejected = mode_c(results)
     bad += rejected
